@@ -109,3 +109,67 @@ Theorem C11_outboard_indep_rest : forall (HO : hops) t (data : bytes HO) (sched 
   rd_rest HO (snd (outboard_post_order_r HO t (mkRd HO data sched 0 None))) = snd (outboard_post_order HO t data).
 Proof. exact outboard_indep_rest. Qed.
 Print Assumptions C11_outboard_indep_rest.
+
+(* ======================================================================================================
+   Gap audit additions (Proofs/GapC10Read.v for the creation loop, Proofs/GapC11Env.v for the environment)
+   ====================================================================================================== *)
+From BaoV Require Import Proofs.GapC10Read Proofs.GapC11Env.
+
+(* sync::outboard (outboard creation INTO AN OUTBOARD STORE, any store kind) reading the blob through any
+   schedule: same result (root or error) and same stored outboard as over the plain bytes *)
+Theorem C11_outboard_impl_indep : forall (HO : hops) t (data : bytes HO) (sched : list ev) (ob : outboard HO),
+  fst (outboard_impl_r HO t (mkRd HO data sched 0 None) ob) = fst (outboard_impl HO t data ob).
+Proof. exact outboard_impl_indep. Qed.
+Print Assumptions C11_outboard_impl_indep.
+Theorem C11_outboard_impl_indep_rest : forall (HO : hops) t (data : bytes HO) (sched : list ev) (ob : outboard HO),
+  fst (fst (outboard_impl_r HO t (mkRd HO data sched 0 None) ob)) <> Err KUnexpectedEof ->
+  rd_rest HO (snd (outboard_impl_r HO t (mkRd HO data sched 0 None) ob)) = snd (outboard_impl HO t data ob).
+Proof. exact outboard_impl_indep_rest. Qed.
+Print Assumptions C11_outboard_impl_indep_rest.
+
+(* ---- the two loops the model treats as atomic (ENVIRONMENT model of Proofs/GapC11Env.v, not crate code):
+   a sink taking a short count per write call (std / tokio write_all over it), a positioned store returning a
+   short count per read_at call (positioned_io read_exact_at over it) ---- *)
+(* every stream write of the sync code is `out ++ buf`, whatever the sink's schedule *)
+Theorem C11_write_all_indep : forall (HO : hops) (w : sink HO) (buf : bytes HO), sk_cap HO w = None ->
+  exists w', write_all_sync HO w buf = (Ok tt, w') /\ sk_out HO w' = sk_out HO w ++ buf /\ sk_cap HO w' = None /\
+     suffix (sk_sched HO w') (sk_sched HO w).
+Proof. exact write_all_sync_indep. Qed.
+Print Assumptions C11_write_all_indep.
+(* tokio's write_all (fsm writers): the same for schedules without Interrupted ... *)
+Theorem C11_write_all_tokio_indep : forall (HO : hops) (w : sink HO) (buf : bytes HO), sk_cap HO w = None ->
+  (forall e, In e (sk_sched HO w) -> e <> EIntr) ->
+  exists w', write_all_tokio HO w buf = (Ok tt, w') /\ sk_out HO w' = sk_out HO w ++ buf /\ sk_cap HO w' = None /\
+     suffix (sk_sched HO w') (sk_sched HO w).
+Proof. exact write_all_tokio_indep. Qed.
+Print Assumptions C11_write_all_tokio_indep.
+(* ... the hypothesis is needed *)
+Theorem C11_write_all_tokio_interrupted_is_propagated : forall (HO : hops),
+  write_all_tokio HO (mkSink HO [] [EIntr] None) [bzero HO] = (Err KInterrupted, mkSink HO [] [] None).
+Proof. exact write_all_tokio_interrupted_is_propagated. Qed.
+Print Assumptions C11_write_all_tokio_interrupted_is_propagated.
+(* a sink that is full after `cap` bytes: Ok iff everything fits, else WriteZero with exactly the first `cap` bytes
+   stored, whatever the schedule *)
+Theorem C11_write_all_full : forall (HO : hops) (w : sink HO) (buf : bytes HO) cap,
+  sk_cap HO w = Some cap -> blen HO (sk_out HO w) <= cap ->
+  exists w', write_all_sync HO w buf
+             = ((if blen HO (sk_out HO w) + blen HO buf <=? cap then Ok tt else Err KWriteZero), w') /\
+     sk_out HO w' = sk_out HO w ++ take HO (cap - blen HO (sk_out HO w)) buf /\ sk_cap HO w' = Some cap /\
+     suffix (sk_sched HO w') (sk_sched HO w).
+Proof. exact write_all_sync_full. Qed.
+Print Assumptions C11_write_all_full.
+(* every positioned exact read of the sync code (encoders, validators, outboard loads) is the model's atomic
+   read_exact_at, whatever short counts / Interrupted returns the store produces *)
+Theorem C11_read_exact_at_indep : forall (HO : hops) (p : pstore HO) off len,
+  exists p', read_exact_at_sched HO p off len = (read_exact_at HO (ps_data HO p) off len, p') /\
+     ps_data HO p' = ps_data HO p /\ suffix (ps_sched HO p') (ps_sched HO p).
+Proof. exact read_exact_at_sched_indep. Qed.
+Print Assumptions C11_read_exact_at_indep.
+(* put together for sync::encode_ranges (`encode_ranges_env`: the model's encode_loop with its data reads and its
+   writes going through the two scheduled environments): result and bytes written are the model's *)
+Theorem C11_encode_ranges_env_indep : forall (HO : hops) (p : pstore HO) (ob : outboard HO) q ws,
+  exists p' w', encode_ranges_env HO p ob q (mkSink HO [] ws None) = (fst (encode_ranges HO (ps_data HO p) ob q), p', w') /\
+     sk_out HO w' = snd (encode_ranges HO (ps_data HO p) ob q) /\ ps_data HO p' = ps_data HO p /\
+     suffix (ps_sched HO p') (ps_sched HO p) /\ suffix (sk_sched HO w') ws.
+Proof. exact encode_ranges_env_indep. Qed.
+Print Assumptions C11_encode_ranges_env_indep.
